@@ -12,7 +12,7 @@ import (
 	am "github.com/pancsta/asyncmachine-go/pkg/machine"
 )
 
-var AllNames = []string{"A", "B", "C", "D", "E", "F", "G", "H"}
+var AllNames = []string{"A", "B", "C", "D", "E", "F", "G", "H", "I", "J", "K", "L", "M", "N", "O", "P", "Q", "R", "S", "T"}
 
 type StateSpec struct {
 	Auto    bool     `json:"auto,omitempty"`
